@@ -770,7 +770,8 @@ func runCase(id string, c cfgIn, steps []step) (aux, obs string, err error) {
 		}
 		o := "E" + jarField(st.enum) + "/L" + jarField(st.look) + "/B" + lst(bs) + "/H" + hc(st.hdr) + "/W" + w
 		if !st.ran {
-			o = "norun/W" + w
+			// the handler was never reached (the middleware panicked on the way in)
+			o = "E-/L-/B-/H_/W" + w + "!norun"
 		}
 		if st.bindErr {
 			o += "!binderr"
